@@ -14,6 +14,7 @@ import (
 	"math"
 	"os"
 	"path/filepath"
+	"strings"
 
 	. "adharness/common"
 
@@ -349,6 +350,24 @@ func runHunt(o Opts) {
 			}
 			return
 		}
+		if c.Kind == "JM" || c.Kind == "HM" {
+			tried++
+			if f := helperMOracle(c); f != "" {
+				s := helperMShrink(c)
+				if f2 := helperMOracle(s); f2 != "" {
+					f = f2
+				} else {
+					s = c
+				}
+				cut := strings.Index(f, ": ")
+				key := "HM|" + f[:minInt(len(f), cut+14)]
+				if !seen[key] {
+					seen[key] = true
+					all = append(all, huntEntry{Failure: f, Case: s})
+				}
+			}
+			return
+		}
 		if c.Kind == "O" || c.Kind == "OD" {
 			tried++
 			if f := optOracle(c); f != "" {
@@ -462,6 +481,11 @@ func runHunt(o Opts) {
 	for i := 0; i < o.N/20; i++ {
 		try(genHelper(rng, i))
 	}
+	// round 6: the helper machines: every receiver type x caller state x recycling, random functions
+	hrng := NewRng(o.Seed*1000003 + 616161)
+	for i := 0; i < o.N; i++ {
+		try(genHelperM(hrng, i))
+	}
 	// round 5: every option row group x InSitu mode x width through every path
 	for _, c := range generateOptions(NewRng(o.Seed*1000003+4242), o.N/3) {
 		try(c)
@@ -479,7 +503,8 @@ func runHunt(o Opts) {
 		os := [][2]int{{1, 2}, {2, 1}, {1, 1}, {2, 2}}[(i/2)%4]
 		try(&Case{Kind: "R", P: p, D: []int{n}, Inp: hexList(inp), Act: act, K: k, O: os[0], Fid: os[1], Fam: fam})
 	}
-	res := map[string]interface{}{"found": len(all) > 0, "tried": tried, "all": all, "nonsmooth_points_skipped": branchPoints}
+	res := map[string]interface{}{"found": len(all) > 0, "tried": tried, "all": all, "nonsmooth_points_skipped": branchPoints,
+		"helper_entries_skipped_nonfinite": helperSkipped}
 	if len(all) > 0 {
 		res["failure"] = all[0].Failure
 		res["case"] = all[0].Case
